@@ -42,6 +42,8 @@ structure State where
   nslow : Nat := 0              -- the harness's slot counter
   released : List Nat := []
   slow : List Slow := []        -- temporary sessions in progress, oldest first
+  failClosed : Bool := false    -- the store's `SessionClosed` currently fails (`fault c`)
+  closing : List Nat := []      -- one entry per server-side `Close()` that waits for the handler in that slot
 deriving DecidableEq, Repr
 
 def names (s : State) : List Name := s.slow.map (·.name)
@@ -95,7 +97,10 @@ def modelOp (s : State) (op : Op) : Option (State × Obs) :=
       match s.slow.find? (·.slot == k) with
       | some p =>
         let s2 := { s1 with slow := s1.slow.filter (·.slot != k) }
-        some (s2, { status := .ok, done := [(.p k, 200)], srv := names s2, closed := told s p.name })
+        -- the server-side `Close()` calls that waited for this handler return too (with the store's error, if any)
+        let cls := (s.closing.filter (· == k)).map fun _ => ((Tag.c 0, if s.es && s.failClosed then 2 else 1) : Tag × Nat)
+        let s3 := { s2 with closing := s2.closing.filter (· != k) }
+        some (s3, { status := .ok, done := (.p k, 200) :: cls, srv := names s3, closed := told s p.name })
       | none => some (s1, { status := .ok, srv := names s1 })
   | .get ref _ =>
     match s.mode with
@@ -111,7 +116,17 @@ def modelOp (s : State) (op : Op) : Option (State × Obs) :=
     | .noIds => some (s, rejectObs s stOtherMethod)
   | .tick _ => some (s, { status := .ok, srv := names s })
   -- the store's failures (of `SessionClosed`) change nothing here: `serveEphemeral` drops what `Close` returns
-  | .fault _ => some (s, { status := if s.es then .ok else .noop, srv := names s })
+  | .fault f => some ({ s with failClosed := f.closed }, { status := if s.es then .ok else .noop, srv := names s })
+  -- `ServerSession.Close()` on the temporary session with that id, found through `Server.Sessions()`: it waits for
+  -- the running handler; the POST is answered and the store told when the handler returns (`release`)
+  | .close ref =>
+    match s.mode, ref.name with
+    | .legacy, some n =>
+      match s.slow.filter (·.name == n) with
+      | [] => some (s, { status := .noop, srv := names s })
+      | [p] => some ({ s with closing := s.closing ++ [p.slot] }, { status := .pending, srv := names s })
+      | _ => none     -- several temporary sessions under one id: which of them `Server.Sessions()` yields last is open
+    | _, _ => some (s, { status := .noop, srv := names s })     -- (a session without id cannot be named)
   -- the client of a parked POST goes away: the POST waits in `session.Close()` for its handler — nothing observable
   | .abandon k => some (s, { status := if s.slow.any (·.slot == k) then .ok else .noop, srv := names s })
   | _ => none
@@ -235,8 +250,12 @@ def chkKept (ms : MState) (o : Obs) : Option EClause :=
   else none
 
 /-- Temporary sessions that ended during this operation: a served POST that was answered, and every completion. -/
+def isPostTag : Tag × Nat → Bool
+  | (.p _, _) => true
+  | _ => false
+
 def ended (m : Mode) (op : Op) (o : Obs) : Nat :=
-  (if served m op && (o.status == .code 200 || o.status == .code 202) then 1 else 0) + o.done.length
+  (if served m op && (o.status == .code 200 || o.status == .code 202) then 1 else 0) + (o.done.filter isPostTag).length
 
 /-- the event store is told exactly once per temporary session that ends (never without a store) -/
 def chkTold (ms : MState) (op : Op) (o : Obs) : Option EClause :=
